@@ -1,6 +1,7 @@
 package main
 
 import (
+	"strings"
 	"errors"
 	"fmt"
 	"math"
@@ -58,7 +59,14 @@ func c10Exec(path histPath, alphabet []string) func(hist []int) (string, string,
 			defer restore()
 			tags := map[string]string{"r": "1"}
 			// a sanitizer is configured; the timer "u" of the subscope has a raw name that it rewrites ("u!x" -> "u_x")
-			okc := tally.ValidCharacters{Ranges: tally.AlphanumericRange, Characters: []rune{'_', '.'}}
+			okc := tally.ValidCharacters{Ranges: tally.AlphanumericRange, Characters: []rune{'_', '.', ':'}}
+			// the plain-reporter root joins names with ':' instead of the default '.': whoever builds a name (scopes,
+			// instrument.Call) has to use the scope's separator
+			sep := "."
+			if path == pathPlain {
+				sep = ":"
+			}
+			n := func(parts ...string) string { return strings.Join(parts, sep) }
 			san := &tally.SanitizeOptions{NameCharacters: okc, KeyCharacters: okc, ValueCharacters: okc, ReplacementCharacter: '_'}
 			switch path {
 			case pathSnapshot:
@@ -68,6 +76,9 @@ func c10Exec(path histPath, alphabet []string) func(hist []int) (string, string,
 				e.rec = &Recorder{NoPoints: true}
 				o := scopeOpts(e.rec, path == pathCached, false)
 				o.Prefix, o.Tags, o.SanitizeOptions = "p", tags, san
+				if sep != "." {
+					o.Separator = sep
+				}
 				e.root, _ = tally.VerifNewRootScope(o, 0, 1)
 			}
 			e.sub = e.root.SubScope("s").Tagged(map[string]string{"k": "v"})
@@ -78,11 +89,11 @@ func c10Exec(path histPath, alphabet []string) func(hist []int) (string, string,
 			ident := func(which string) (tally.Scope, string, string, map[string]string) {
 				switch which {
 				case "root.t":
-					return e.root, "t", "p.t", tags
+					return e.root, "t", n("p", "t"), tags
 				case "sub.t":
-					return e.sub, "t", "p.s.t", subTags
+					return e.sub, "t", n("p", "s", "t"), subTags
 				default:
-					return e.sub, "u!x", "p.s.u_x", subTags
+					return e.sub, "u!x", n("p", "s", "u_x"), subTags
 				}
 			}
 			// expectTimer checks that exactly one timer entry with (name,tags,d) was appended since mark
@@ -146,7 +157,7 @@ func c10Exec(path histPath, alphabet []string) func(hist []int) (string, string,
 						_ = id
 						_ = want
 					}
-					hs := snap.Histograms()[tally.KeyForPrefixedStringMap("p.s.h", subTags)]
+					hs := snap.Histograms()[tally.KeyForPrefixedStringMap(n("p", "s", "h"), subTags)]
 					if hs == nil {
 						return "histogram-missing-from-snapshot", ""
 					}
@@ -157,7 +168,7 @@ func c10Exec(path histPath, alphabet []string) func(hist []int) (string, string,
 					}
 					for _, nm := range []string{"error", "success"} {
 						tg := map[string]string{"r": "1", "k": "v", "result_type": nm}
-						k := tally.KeyForPrefixedStringMap("p.s.call", tg)
+						k := tally.KeyForPrefixedStringMap(n("p", "s", "call"), tg)
 						var got int64
 						if c, ok := snap.Counters()[k]; ok {
 							got = c.Value()
@@ -179,7 +190,7 @@ func c10Exec(path histPath, alphabet []string) func(hist []int) (string, string,
 						return "pass-delivered-a-timer", fmt.Sprintf("a report pass delivered %s", en.String())
 					case "counter":
 						gotC[en.Tags["result_type"]] += en.I
-						if en.Name != "p.s.call" {
+						if en.Name != n("p", "s", "call") {
 							return "exec-counter-wrong", en.String()
 						}
 					case "hduration":
@@ -258,7 +269,7 @@ func c10Exec(path histPath, alphabet []string) func(hist []int) (string, string,
 								}
 							}
 						}
-					} else if c, dd := expectTimer(m, "p.s.u", subTags, el, fmt.Sprintf("stopwatch stopped after %d ns", int64(el))); c != "" {
+					} else if c, dd := expectTimer(m, n("p", "s", "u"), subTags, el, fmt.Sprintf("stopwatch stopped after %d ns", int64(el))); c != "" {
 						if c == "timer-delivery-wrong" || c == "timer-values-wrong" {
 							c = "stopwatch-elapsed-wrong"
 						}
@@ -291,7 +302,7 @@ func c10Exec(path histPath, alphabet []string) func(hist []int) (string, string,
 					} else {
 						e.pendCnt["success"]++
 					}
-					if c, dd := expectTimer(m, "p.s.call.latency", subTags, 7, name); c != "" {
+					if c, dd := expectTimer(m, n("p", "s", "call", "latency"), subTags, 7, name); c != "" {
 						if c == "timer-not-forwarded-exactly-once" || c == "timer-delivery-wrong" || c == "timer-values-wrong" {
 							c = "exec-latency-wrong"
 						}
